@@ -197,6 +197,27 @@ claim('C03',
       '5.8, 6/C03')
 
 
+claim('C20',
+      'spec/mech/DriverScaling.tla: the exact rational affine map of one variable of interest (declared units, then scaler/adder or ref/ref0, per '
+      'element); TLC checks the inverse laws both ways, ref->1 / ref0->0, bound images, the composition law of scaled Jacobian blocks and '
+      'multiplier invariance over the declaration grid (scalar and per-element arrays, negative scalers, ref < ref0, unit maps with offsets). '
+      'Every exported scenario is executed on a real Problem: values, cached bounds, total-derivative blocks, set/get round trip and multiplier '
+      'unscaling compared at 1e-12; the division-free form of the inverse law is machine-proved with TLAPS.',
+      'Quick tier pairs every design-variable declaration with every second constraint declaration; bounds are pointwise images (no lower/upper '
+      'swap demanded for negative scalers - see the C21 finding); no pyoptsparse: multipliers via apply_mult_unscaling / compute_lagrange_multipliers.',
+      'TLA+ exact-rational specification + TLC over a declaration grid + scenario replay; TLAPS proof of the integer inverse law', '5.8, 6/C20')
+
+claim('C23',
+      'spec/mech/DOE.tla: full factorial = exactly the Cartesian product of per-factor linspace level sets (exact rationals, int or dict levels), '
+      'in-bounds, the Latin-hypercube stratum permutation law, reproducibility. TLC checks the product laws on all design-variable sets x levels '
+      'forms and exports the exact designs; the same module judges observed designs of Uniform, LatinHypercube (all criteria), Plackett-Burman, '
+      'Box-Behnken and GeneralizedSubset generators; FullFactorial output is compared point for point; DOEDriver runs with every generator '
+      '(incl. List, CSV) are compared case by case with what a spy component sees and what a SqliteRecorder stores.',
+      'Small-scope enumeration (1-3 variables of 1-2 elements); observed doubles reach TLC as exact integer facts (signs, stratum index, '
+      'quantised position, bit pattern); requests pyDOE itself refuses are counted; serial runs only.',
+      'TLA+ specification checked by TLC + replay of exported designs + TLA+ judge of observed generator output', '5.8, 6/C23')
+
+
 def main():
     checks = []
     for pid in ALL:
